@@ -40,7 +40,8 @@ class BoxEngine(Engine):
     max_ops = 40
     expected_probes = ['cache_warm_when_vects_changed', 'refused_raised', 'scribble_returned',
                        'scribble_passed', 'on_face_exact', 'nonnorm_cell', 'reexpress_norm',
-                       'reexpress_nonnorm', 'list_input', 'scalar_point', 'model_roundtrip', 'model_of_other_cell_read', 'noncontiguous_points', 'cube_rotated_cell', 'bulk_points_query']
+                       'reexpress_nonnorm', 'list_input', 'scalar_point', 'model_roundtrip', 'model_of_other_cell_read', 'noncontiguous_points', 'cube_rotated_cell', 'bulk_points_query', 'classmethod_same_arguments_again', 'integer_typed_lengths',
+                       'scribble_returned_planes']
     rule = ('Each run drives ONE Box object (occasionally replaced by a constructor or deepcopy) through up to 40 '
             'seeded operations: the five setter families (set_vectors, set_abc, set_lengths, set_hi_los, '
             'set(**kw)), direct vects=/origin= assignment, constructors and crystal-family class methods, '
@@ -149,6 +150,11 @@ class BoxEngine(Engine):
             op['origin'] = geom.draw_origin(r, size) if r.random() < 0.6 else None
         elif how in ('set_lengths', 'set_hi_los'):
             V, o = self._cell(ctx, st)
+            if st['scale'] >= 1 and r.random() < 0.2:
+                # whole-number lengths (and bounds) handed over as Python ints, tilts as floats
+                V[0, 0], V[1, 1], V[2, 2] = [float(max(1, round(x))) for x in (V[0, 0], V[1, 1], V[2, 2])]
+                o = np.round(o)
+                op['ints'] = True
             op['l'] = [V[0, 0], V[1, 1], V[2, 2], V[1, 0], V[2, 0], V[2, 1]]
             op['defaults'] = (V[1, 0], V[2, 0], V[2, 1]) == (0.0, 0.0, 0.0) and r.random() < 0.5
             if how == 'set_hi_los':
@@ -169,6 +175,10 @@ class BoxEngine(Engine):
             else:
                 op['V'] = V
             op['origin'] = o
+        elif how == 'classmethod' and st.get('last_cm') and r.random() < 0.4:
+            # the same standard cell asked for again: it must be that cell, whatever happened to the earlier object
+            op['family'], op['args'] = st['last_cm']
+            op['repeat'] = True
         elif how == 'classmethod':
             s = st['scale'] * 10 ** r.uniform(0, 1)
             fam = r.choice(['cubic', 'hexagonal', 'tetragonal', 'trigonal', 'orthorhombic', 'monoclinic', 'triclinic'])
@@ -241,7 +251,7 @@ class BoxEngine(Engine):
                 op['l'] = l
             return op
         if k == 'scribble_returned':
-            return {'op': 'scribble_returned', 'which': r.choice(['vects', 'origin', 'avect', 'bvect', 'cvect']),
+            return {'op': 'scribble_returned', 'which': r.choice(['vects', 'origin', 'avect', 'bvect', 'cvect', 'planes', 'planes']),
                     'junk': r.uniform(-50, 50)}
         V, o = self._cell(ctx, st, general=True)
         return {'op': 'scribble_passed', 'how': r.choice(['vects_attr', 'set_vectors', 'set_vects', 'origin_attr', 'ctor']),
@@ -330,6 +340,9 @@ class BoxEngine(Engine):
         elif k == 'set_lengths':
             lx, ly, lz, xy, xz, yz = op['l']
             kw = {'lx': lx, 'ly': ly, 'lz': lz}
+            if op.get('ints') and all(float(v).is_integer() for v in (lx, ly, lz)):
+                kw = {'lx': int(lx), 'ly': int(ly), 'lz': int(lz)}
+                ctx.probe('integer_typed_lengths')
             if not op['defaults']:
                 kw.update(xy=xy, xz=xz, yz=yz)
             if op['origin'] is not None:
@@ -343,6 +356,9 @@ class BoxEngine(Engine):
             o = np.array(op['origin'], dtype=float)
             hi = o + np.array([lx, ly, lz])
             kw = {'xlo': o[0], 'xhi': hi[0], 'ylo': o[1], 'yhi': hi[1], 'zlo': o[2], 'zhi': hi[2]}
+            if op.get('ints') and all(float(v).is_integer() for v in list(o) + list(hi)):
+                kw = {k2: int(v) for k2, v in kw.items()}
+                ctx.probe('integer_typed_lengths')
             if not op['defaults']:
                 kw.update(xy=xy, xz=xz, yz=yz)
             ctx.must('C01.X', box.set if op['via'] == 'set' else box.set_hi_los, klass=klass, **kw)
@@ -396,6 +412,9 @@ class BoxEngine(Engine):
             st['box'], st['V'], st['o'], st['warm'] = nb, V, o, False
         elif k == 'classmethod':
             fam, a = op['family'], op['args']
+            if st.get('last_cm') == (fam, list(a)):
+                ctx.probe('classmethod_same_arguments_again')
+            st['last_cm'] = (fam, list(a))
             nb = ctx.must('C01.X', getattr(am.Box, fam), *a, klass=klass)
             if fam == 'cubic':
                 V = geom.tri_from_abc(a[0], a[0], a[0], 90, 90, 90)
@@ -622,6 +641,20 @@ class BoxEngine(Engine):
     def _apply_scribble_returned(self, ctx, st, op):
         box = st['box']
         which = op['which']
+        if which == 'planes':
+            # the six face planes a caller gets are the caller's: shifting or re-orienting them (as the dislocation
+            # builders do to make a trimmed PlaneSet) must not move the Box
+            planes = ctx.must('C01.B7', getattr, box, 'planes', klass='get/planes')
+            for pl in planes:
+                try:
+                    pl.point -= 0.37 * (1.0 + float(np.abs(st['V']).max())) * pl.normal
+                    pl.normal[...] = pl.normal[::-1].copy()
+                except (ValueError, TypeError):
+                    pass
+            ctx.fault('scribble_returned')
+            ctx.probe('scribble_returned_planes')
+            ctx.ev('op', 'scribble_returned', {'which': which})
+            return
         arr = ctx.must('C01.B7', getattr, box, which, klass='get/' + which)
         try:
             arr[...] = op['junk']
